@@ -409,7 +409,7 @@ def r4(c):
     united = [s for s in stores if any(call_name(x) == "mangle_united_community_list_name" for x in pv.origin_calls(s.targets[0].slice, through_calls=False))]
     ok = len(united) == 1
     if ok:
-        f = gm.formula(united[0], G.GuardEnv(), skip_early=True)
+        f = gm.formula(united[0], G.GuardEnv(), skip_early=True, alias=True)
         at = G.atoms(f)
         # only the HAS_ANY test (and the length test) may guard the store
         extra = [a for a in at if "HAS_ANY" not in a and "len(condition.value)" not in a]
@@ -420,7 +420,7 @@ def r4(c):
     c.check("C14.R4", ok, repo.loc(cm, united[0] if united else fn), "get_used_united_community_lists/store-per-name",
             f"{detail}: a HAS_ANY over the same lists in another order is referenced by the policy as a different name (`A_OR_B` vs `B_OR_A`) but would not be defined", key_text="united-store")
     skips = [n for n in walk_no_nested(fn) if isinstance(n, ast.Continue)
-             and [a for a in G.atoms(gm.formula(n, G.GuardEnv(), skip_early=True)) if "operator" not in a and "len(condition.value)" not in a]]
+             and [a for a in G.atoms(gm.formula(n, G.GuardEnv(), alias=True)) if "operator" not in a and "len(condition.value)" not in a]]
     c.check("C14.R4", not skips, repo.loc(cm, skips[0] if skips else fn), "get_used_united_community_lists/no-skip", f"`continue` under [{G.show(gm.formula(skips[0])) if skips else ''}] skips a referenced union", key_text="united-skip")
     for modname, fname in (("annet.rpl_generators.policy", "_arista_match"), ("annet.rpl_generators.community", "CommunityListGenerator.run_arista")):
         m = repo.module(modname)
